@@ -189,8 +189,18 @@ def _job(a):
     obs.write(cfg, cfgtext)
     out = os.path.join(tmp, "o%d%s" % (i, EXT[lang]))
     rc, so, se = sh([unc, "-c", cfg, "-q", "-l", {"OC": "OC", "CPP": "CPP", "C": "C", "JAVA": "JAVA"}[lang], "-f", src], cwd=tmp, timeout=10)
+    spin = ""
+    if rc == -999:
+        # where does it spin?  (same reading of the pass hook as C06)
+        r2, so2, se2, evs = obs.run(unc, ["-c", cfg, "-q", "-l", lang, "-f", src], cwd=tmp, trace=os.path.join(tmp, "k%d.nd" % i), flags=["PASS"], timeout=4)
+        passes = [e["name"] for e in evs if e.get("e") == "Pass"]
+        if len(passes) > 200:
+            tail = set(passes[-40:])
+            spin = "width-loop" if "do_code_width" in tail else ("newline-loop" if "do_blank_lines" in tail else "loop:" + passes[-1])
+        else:
+            spin = passes[-1] if passes else "tokenize"
     os.unlink(cfg)
-    ev = {"id": "%s|%s" % (os.path.basename(src), cfgname), "c1": 0, "m1": m1, "status": rc, "c2": 0, "m2": ""}
+    ev = {"id": "%s|%s" % (os.path.basename(src), cfgname), "c1": 0, "m1": m1, "status": rc, "c2": 0, "m2": "", "spin": spin}
     if rc == 0:
         obs.write(out, so)
         c2, m2 = compile_id(out, lang, tmp, "o%d" % i)
@@ -210,19 +220,40 @@ def failure_of(ev):
 
 
 def minimise(unc, tmp, src, lang, m1, cfgtext, kind):
+    """the smallest part of the configuration found (halving first, then line by line) that still produces this failure"""
     lines = [l for l in cfgtext.split("\n") if l.strip()]
     if len(lines) <= 1:
         return lines
+    budget = [60]
+
+    def fails(t):
+        budget[0] -= 1
+        ev, m = _job((unc, tmp, 900000 + budget[0], src, lang, m1, "min", "\n".join(t) + "\n"))
+        return failure_of(ev) == kind
     keep = list(lines)
-    budget = 80
-    for l in lines:
-        if budget <= 0:
-            break
-        t = [x for x in keep if x != l]
-        budget -= 1
-        ev, m = _job((unc, tmp, 900000 + budget, src, lang, m1, "min", "\n".join(t) + "\n"))
-        if failure_of(ev) == kind:
-            keep = t
+    n = 2
+    while len(keep) > 1 and budget[0] > 0:
+        size = max(1, len(keep) // n)
+        parts = [keep[k:k + size] for k in range(0, len(keep), size)]
+        done = False
+        for part in parts:
+            if budget[0] <= 0:
+                break
+            if len(part) < len(keep) and fails(part):
+                keep, n, done = part, 2, True
+                break
+        if not done:
+            for part in parts:
+                if budget[0] <= 0:
+                    break
+                rest = [x for x in keep if x not in part]
+                if rest and len(rest) < len(keep) and fails(rest):
+                    keep, n, done = rest, max(n - 1, 2), True
+                    break
+        if not done:
+            if size == 1:
+                break
+            n = min(len(keep), n * 2)
     return sorted(keep)
 
 
@@ -354,11 +385,15 @@ def run(ctx):
             for b in rep["bad"]:
                 # the signature names the smallest part of the configuration that still produces this failure on this program
                 kind = os.path.basename(src).rstrip("0123456789").split(".")[0].rstrip("0123456789")
-                ck = (b, kind, lang, cn)
-                if ck not in mincache:
-                    mincache[ck] = minimise(unc, tmp, src, lang, e["m1"], ct, b)
-                mins = mincache[ck]
-                sig = "%s|%s%s|%s" % (b, kind, EXT[lang], ";".join(mins))
+                if e["status"] == -999 and e.get("spin") in ("width-loop", "newline-loop"):
+                    # a convergence loop of uncrustify_file() that does not converge: the class C06 records
+                    sig = "%s|%s%s|spins-in=%s" % (b, kind, EXT[lang], e["spin"])
+                else:
+                    ck = (b, kind, lang, cn)
+                    if ck not in mincache:
+                        mincache[ck] = minimise(unc, tmp, src, lang, e["m1"], ct, b)
+                    mins = mincache[ck]
+                    sig = "%s|%s%s|%s" % (b, kind, EXT[lang], ";".join(mins))
                 ctx.violation(sig, "%s violated: %s formatted with %s: exit %d, compile of output %d, object code %s -> %s" % (
                     b, os.path.basename(src), cn, e["status"], e["c2"], e["m1"], e["m2"]),
                     {"kind": "c01", "which": b, "lang": lang, "cfg_text": ct, "src_name": os.path.basename(src), "src_bytes": open(src, "rb").read()})
